@@ -17,10 +17,14 @@ def _inode_cases():
 def _dir_ext_cases():
     return [dict(id="idx%d" % k, defines={"ITYPE": 8, "NIDX": k},
                  tier="quick" if k <= 1 else "thorough",
-                 unwindset=["read_inode_dir_ext.0:%d" % (k + 1),
-                            "read_inode_dir_ext.1:60", "harness.0:%d" % (k + 1)])
+                 # loop .0 is the inner doubling `while` (at most 57 doublings
+                 # of a size_t starting at 128), loop .1 the `for` over the
+                 # index entries (inodex_count fixed to k by the harness)
+                 unwindset=["read_inode_dir_ext.0:60",
+                            "read_inode_dir_ext.1:%d" % (k + 1), "harness.0:%d" % (k + 1)])
             for k in range(0, 4)]
 
+_FP_DR = dict(_ENV, destroy="data_reader_destroy", copy="data_reader_copy")
 HARNESSES = [
     dict(name="super", file="super.c", label="proved", timeout=170,
          fp=dict(_ENV), unwindset=["sqfs_super_read.0:21", "memcmp.0:97", "verif_nd_bytes.0:97"]),
@@ -41,4 +45,31 @@ HARNESSES = [
     dict(name="read_inode_dir_ext", file="read_inode.c",
          label="bounded(dir index entries <= 3)", timeout=170,
          malloc_fail=True, flags=_UF, cases=_dir_ext_cases()),
+    dict(name="readdir", file="readdir.c", label="proved", timeout=170,
+         nochecks=["--conversion-check"], malloc_fail=True, flags=_UF),
+    dict(name="readdir_init", file="readdir_init.c", label="proved", timeout=170,
+         unwindset=["verif_nd_bytes.0:49"]),
+    dict(name="read_table", file="read_table.c", label="proved", timeout=170,
+         fp=dict(_ENV, destroy="rt_reader_destroy", copy="rt_reader_destroy"),
+         malloc_fail=True, flags=_UF, loops=["sqfs_read_table"],
+         defines={"RT_MAX": "0x1000000000"}),
+    dict(name="id_table_read", file="id_table_read.c", label="proved", timeout=170,
+         fp=dict(_ENV, destroy="id_table_destroy", copy="id_table_copy"),
+         malloc_fail=True, flags=_UF, loops=["sqfs_id_table_read"]),
+    dict(name="frag_table_read", file="frag_table_read.c", label="proved", timeout=170,
+         fp=dict(_ENV, destroy="frag_table_destroy", copy="frag_table_copy"),
+         malloc_fail=True, flags=_UF),
+    dict(name="dr_stream", file="dr_stream.c", label="proved", timeout=170,
+         fp=_FP_DR, malloc_fail=True, flags=_UF, defines={"DS_MAXBLK": "0x3FFFFFFF"}),
+    dict(name="dr_fragment", file="dr_fragment.c", label="proved", timeout=170,
+         fp=_FP_DR, malloc_fail=True, flags=_UF),
+    dict(name="dr_read", file="dr_read.c", label="bounded(block words <= 3)", timeout=170,
+         fp=_FP_DR, malloc_fail=True, flags=_UF,
+         cases=[dict(id="nblk%d" % n, defines={"NBLK": n}, unwind=n + 2,
+                     tier="quick" if n <= 2 else "thorough") for n in range(0, 4)]),
+    dict(name="dr_getblock", file="dr_getblock.c", label="proved", timeout=170,
+         fp=_FP_DR, malloc_fail=True, flags=_UF, loops=["sqfs_data_reader_get_block"]),
+    dict(name="dr_create_stream", file="dr_create_stream.c", label="proved", timeout=170,
+         fp=dict(_FP_DR, **{"sqfs_drop:destroy": "data_reader_destroy"}),
+         malloc_fail=True, flags=_UF, unwindset=["strlen.0:6"]),
 ]
